@@ -698,7 +698,7 @@ theorem index_known_partial (a b r : Value) (ha : a.whollyKnown = true) (hb : b.
   binMarks_lift _ wk_withMarks (fun _ => indexU_wk (by rw [whollyKnown_unmark]; exact ha)
     (by rw [whollyKnown_unmark]; exact hb) hta htb) h
 
-theorem length_known_partial (a r : Value) (hk : a.whollyKnown = true) (ht : a.ty ≠ .dyn)
+theorem length_known_partial (a r : Value) (hk : a.whollyKnown = true) (_ht : a.ty ≠ .dyn)
     (h : Value.length a = .ok r) : r.whollyKnown = true :=
   unMarks_lift _ wk_withMarks (fun _ => lengthU_wk (by rw [whollyKnown_unmark]; exact hk)) h
 
@@ -712,7 +712,7 @@ theorem getAttr_known_partial (a : Value) (name : String) (r : Value) (hk : a.wh
   · exact getAttrU_wk hk ht h
 
 theorem hasElement_known_partial (a b r : Value) (eh : Option Int) (ha : a.whollyKnown = true) (hb : b.whollyKnown = true)
-    (hta : a.ty ≠ .dyn) (htb : b.ty ≠ .dyn) (h : Value.hasElement a b eh = .ok r) : r.whollyKnown = true := by
+    (_hta : a.ty ≠ .dyn) (_htb : b.ty ≠ .dyn) (h : Value.hasElement a b eh = .ok r) : r.whollyKnown = true := by
   unfold Value.hasElement at h
   split at h
   · obtain ⟨r0, h0, rfl⟩ := res_map_ok h
@@ -729,5 +729,330 @@ theorem knownInKnownOut_not_false : ¬ KnownInKnownOut₁ Value.not := by
   intro h
   have := h _ _ rfl not_null_dyn_counterexample
   cases this
+
+/-! ### Equals on wholly known operands never answers "unknown" -/
+theorem equalsPre_known {a b r : Value} (ha : a.isKnown = true) (hb : b.isKnown = true)
+    (h : equalsPre a b = .ok (some r)) : ∃ x, r = boolVal x := by
+  unfold equalsPre at h
+  simp only [ha, hb, Bool.not_true, Bool.and_false, Bool.and_self, Bool.false_eq_true, if_false] at h
+  repeat' split at h
+  all_goals first
+    | (cases h; done)
+    | (cases h; exact ⟨_, rfl⟩)
+
+mutual
+theorem hwkt_of_wk : ∀ (t : Ty) (p : Payload), p.whollyKnown = true → hasWhollyKnownType t p = true
+  | t, .null, _ => by cases t <;> rfl
+  | t, .unk _, h => by simp [Payload.whollyKnown] at h
+  | t, .seq vs, h => by
+    simp only [Payload.whollyKnown] at h
+    cases t <;> first
+      | rfl
+      | (simp only [hasWhollyKnownType]; exact hwktAll_of_wk _ vs h)
+      | (simp only [hasWhollyKnownType]; exact hwktZip_of_wk _ vs h)
+  | t, .smap _ vs, h => by
+    simp only [Payload.whollyKnown] at h
+    cases t <;> first
+      | rfl
+      | (simp only [hasWhollyKnownType]; exact hwktAll_of_wk _ vs h)
+      | (simp only [hasWhollyKnownType]; exact hwktZip_of_wk _ vs h)
+  | t, .sset _ vs, h => by
+    simp only [Payload.whollyKnown] at h
+    cases t <;> first
+      | rfl
+      | (simp only [hasWhollyKnownType]; exact hwktAll_of_wk _ vs h)
+  | t, .b _, _ => by cases t <;> rfl
+  | t, .n _, _ => by cases t <;> rfl
+  | t, .s _, _ => by cases t <;> rfl
+  | t, .caps, _ => by cases t <;> rfl
+  | t, .marked _ _, _ => by cases t <;> rfl
+  | t, .bad _, _ => by cases t <;> rfl
+theorem hwktAll_of_wk : ∀ (e : Ty) (vs : List Payload), Payload.whollyKnownL vs = true → hwktAll e vs = true
+  | _, [], _ => by simp only [hwktAll]
+  | e, v :: vs, h => by
+    simp only [Payload.whollyKnownL, Bool.and_eq_true] at h
+    simp only [hwktAll, Bool.and_eq_true]
+    exact ⟨hwkt_of_wk e v h.1, hwktAll_of_wk e vs h.2⟩
+theorem hwktZip_of_wk : ∀ (ts : List Ty) (vs : List Payload), Payload.whollyKnownL vs = true → hwktZip ts vs = true
+  | [], _, _ => by simp only [hwktZip]
+  | _ :: _, [], _ => by simp only [hwktZip]
+  | t :: ts, v :: vs, h => by
+    simp only [Payload.whollyKnownL, Bool.and_eq_true] at h
+    simp only [hwktZip, Bool.and_eq_true]
+    exact ⟨hwkt_of_wk t v h.1, hwktZip_of_wk ts vs h.2⟩
+end
+
+/-- the recursive occurrence answers "known" on wholly known members -/
+def RecWK (rec : EqRec) : Prop :=
+  ∀ ta a tb b r, Payload.whollyKnown a = true → Payload.whollyKnown b = true → rec ta a tb b = .ok r → r.whollyKnown = true
+
+theorem eqAccOf_wk {rec : EqRec} (hrec : RecWK rec) {t : Ty} {x y : Payload} {acc : EqAcc}
+    (hx : x.whollyKnown = true) (hy : y.whollyKnown = true)
+    (h : eqAccOf (rec t x t y) = .ok acc) : acc ≠ .u := by
+  cases hr : rec t x t y with
+  | ok v =>
+    have hk := isKnown_of_wk (hrec _ _ _ _ _ hx hy hr)
+    rw [hr] at h
+    simp only [eqAccOf, hk, Bool.not_true, Bool.false_eq_true, if_false] at h
+    split at h <;> (cases h; simp)
+  | err c => rw [hr] at h; simp [eqAccOf] at h
+  | panic w => rw [hr] at h; simp [eqAccOf] at h
+  | unmodelled => rw [hr] at h; simp [eqAccOf] at h
+
+theorem equalsZip_wk {rec : EqRec} (hrec : RecWK rec) (ts : List Ty) : ∀ (xs ys : List Payload) (acc : EqAcc),
+    Payload.whollyKnownL xs = true → Payload.whollyKnownL ys = true →
+    equalsZip rec ts xs ys = .ok acc → acc ≠ .u := by
+  induction ts with
+  | nil => intro xs ys acc _ _ h; simp [equalsZip] at h; subst h; simp
+  | cons t ts ih =>
+    intro xs ys acc hx hy h
+    cases xs with
+    | nil => simp [equalsZip] at h; subst h; simp
+    | cons x xs =>
+      cases ys with
+      | nil => simp [equalsZip] at h; subst h; simp
+      | cons y ys =>
+        simp only [Payload.whollyKnownL, Bool.and_eq_true] at hx hy
+        simp only [equalsZip] at h
+        split at h
+        · exact ih xs ys acc hx.2 hy.2 h
+        · exact eqAccOf_wk hrec hx.1 hy.1 h
+
+theorem equalsAll_wk {rec : EqRec} (hrec : RecWK rec) (e : Ty) (xs : List Payload) : ∀ (ys : List Payload) (acc : EqAcc),
+    Payload.whollyKnownL xs = true → Payload.whollyKnownL ys = true →
+    equalsAll rec e xs ys = .ok acc → acc ≠ .u := by
+  induction xs with
+  | nil => intro ys acc _ _ h; simp [equalsAll] at h; subst h; simp
+  | cons x xs ih =>
+    intro ys acc hx hy h
+    cases ys with
+    | nil => simp [equalsAll] at h; subst h; simp
+    | cons y ys =>
+      simp only [Payload.whollyKnownL, Bool.and_eq_true] at hx hy
+      simp only [equalsAll] at h
+      split at h
+      · exact ih ys acc hx.2 hy.2 h
+      · exact eqAccOf_wk hrec hx.1 hy.1 h
+
+theorem equalsObj_wk {rec : EqRec} (hrec : RecWK rec) (ts : List Ty) : ∀ (xs ys : List Payload) (acc : EqAcc),
+    Payload.whollyKnownL xs = true → Payload.whollyKnownL ys = true →
+    equalsObj rec ts xs ys false = .ok acc → acc ≠ .u := by
+  induction ts with
+  | nil => intro xs ys acc _ _ h; simp [equalsObj] at h; subst h; simp
+  | cons t ts ih =>
+    intro xs ys acc hx hy h
+    cases xs with
+    | nil => simp [equalsObj] at h; subst h; simp
+    | cons x xs =>
+      cases ys with
+      | nil => simp [equalsObj] at h; subst h; simp
+      | cons y ys =>
+        simp only [Payload.whollyKnownL, Bool.and_eq_true] at hx hy
+        simp only [equalsObj] at h
+        split at h
+        · exact ih xs ys acc hx.2 hy.2 h
+        · rename_i he
+          exact absurd rfl (eqAccOf_wk hrec hx.1 hy.1 he)
+        · exact eqAccOf_wk hrec hx.1 hy.1 h
+
+theorem equalsMap_wk {rec : EqRec} (hrec : RecWK rec) (e : Ty) (ky : List String) (ys : List Payload)
+    (hy : Payload.whollyKnownL ys = true) (ks : List String) : ∀ (xs : List Payload) (acc : EqAcc),
+    Payload.whollyKnownL xs = true →
+    equalsMap rec e ks xs ky ys false = .ok acc → acc ≠ .u := by
+  induction ks with
+  | nil => intro xs acc _ h; simp [equalsMap] at h; subst h; simp
+  | cons k ks ih =>
+    intro xs acc hx h
+    cases xs with
+    | nil => simp [equalsMap] at h; subst h; simp
+    | cons x xs =>
+      simp only [Payload.whollyKnownL, Bool.and_eq_true] at hx
+      simp only [equalsMap] at h
+      split at h
+      · cases h; simp
+      · rename_i y hl
+        have hyk := wkL_lookupKey hy hl
+        split at h
+        · exact ih xs acc hx.2 h
+        · rename_i he
+          exact absurd rfl (eqAccOf_wk hrec hx.1 hyk he)
+        · exact eqAccOf_wk hrec hx.1 hyk h
+
+theorem any_isUnk_of_wk : ∀ (vs : List Payload), Payload.whollyKnownL vs = true → vs.any isUnkPayload = false
+  | [], _ => rfl
+  | v :: vs, h => by
+    simp only [Payload.whollyKnownL, Bool.and_eq_true] at h
+    simp only [List.any_cons, any_isUnk_of_wk vs h.2, Bool.or_false]
+    cases v <;> first | rfl | (simp [Payload.whollyKnown] at h)
+
+theorem wk_accVal {acc : EqAcc} (h : acc ≠ .u) : (accVal acc).whollyKnown = true := by
+  cases acc
+  · rfl
+  · rfl
+  · exact absurd rfl h
+
+theorem equalsFuel_wk : ∀ fuel, RecWK (equalsFuel fuel) := by
+  intro fuel
+  induction fuel with
+  | zero => intro ta a tb b r _ _ h; cases h
+  | succ n ih =>
+    intro ta a tb b r ha hb h
+    unfold equalsFuel at h
+    split at h
+    · rename_i r' hp
+      cases h
+      obtain ⟨x, rfl⟩ := equalsPre_known (isKnown_of_wk (v := ⟨ta, a⟩) ha) (isKnown_of_wk (v := ⟨tb, b⟩) hb) hp
+      rfl
+    · cases h
+    · cases h
+    · cases h
+    · simp only [hwkt_of_wk ta a ha, hwkt_of_wk tb b hb, Bool.not_true, Bool.or_self, Bool.false_eq_true, if_false] at h
+      split at h
+      · cases h; rfl
+      · split at h
+        · cases h; rfl
+        · cases h; rfl
+        · cases h; rfl
+        · obtain ⟨acc, hacc, rfl⟩ := res_map_ok h
+          simp only [Payload.whollyKnown] at ha hb
+          exact wk_accVal (equalsObj_wk ih _ _ _ _ ha hb hacc)
+        · obtain ⟨acc, hacc, rfl⟩ := res_map_ok h
+          simp only [Payload.whollyKnown] at ha hb
+          exact wk_accVal (equalsZip_wk ih _ _ _ _ ha hb hacc)
+        · simp only [Payload.whollyKnown] at ha hb
+          split at h
+          · obtain ⟨acc, hacc, rfl⟩ := res_map_ok h
+            exact wk_accVal (equalsAll_wk ih _ _ _ _ ha hb hacc)
+          · cases h; rfl
+        · simp only [Payload.whollyKnown] at ha hb
+          split at h
+          · obtain ⟨acc, hacc, rfl⟩ := res_map_ok h
+            exact wk_accVal (equalsMap_wk ih _ _ _ hb _ _ _ ha hacc)
+          · cases h; rfl
+        · simp only [Payload.whollyKnown] at ha hb
+          simp only [any_isUnk_of_wk _ ha, any_isUnk_of_wk _ hb, Bool.or_self, Bool.false_eq_true, if_false] at h
+          repeat' split at h
+          all_goals first
+            | (cases h; done)
+            | (cases h; rfl)
+        · cases h
+        · cases h
+
+/-- Equals needs no restriction on the operand types -/
+theorem equals_knownInKnownOut : KnownInKnownOut₂ Value.equals := by
+  intro a b r ha hb h
+  unfold Value.equals at h
+  split at h
+  · obtain ⟨r0, h0, rfl⟩ := res_map_ok h
+    rw [whollyKnown_withMarks]
+    exact equalsFuel_wk _ _ _ _ _ _ (by rw [wk_stripMarks]; exact ha) (by rw [wk_stripMarks]; exact hb) h0
+  · exact equalsFuel_wk _ _ _ _ _ _ ha hb h
+
+theorem equals_known_partial (a b r : Value) (ha : a.whollyKnown = true) (hb : b.whollyKnown = true)
+    (_hta : a.ty ≠ .dyn) (_htb : b.ty ≠ .dyn) (h : Value.equals a b = .ok r) : r.whollyKnown = true :=
+  equals_knownInKnownOut a b r ha hb h
+
+theorem length_knownInKnownOut : KnownInKnownOut₁ Value.length := by
+  intro a r hk h
+  exact unMarks_lift _ wk_withMarks (fun _ => lengthU_wk (by rw [whollyKnown_unmark]; exact hk)) h
+
+/-! ### the comparisons and Equals answer with a boolean-typed value -/
+theorem ty_withMarks : ∀ (r : Value) (ms : List String), r.ty = .bool → (r.withMarks ms).ty = .bool :=
+  fun _ _ h => h
+
+theorem lessThanU_ty {a b r : Value} (h : lessThanU a b = .ok r) : r.ty = .bool := by
+  unfold lessThanU at h
+  obtain ⟨tc, htc, h⟩ := Res.bind_eq_ok.mp h
+  have short : ∀ {r}, (do match ← rangeLess a b with
+          | some r => pure (boolVal r)
+          | none => pure unkBool) = Res.ok r → r.ty = .bool := by
+    intro r h
+    obtain ⟨s, hs, h⟩ := Res.bind_eq_ok.mp h
+    cases s <;> (cases h; rfl)
+  rcases tc_cases tc with rfl | rfl | rfl <;> simp only at h
+  · obtain ⟨x, hx, h⟩ := Res.bind_eq_ok.mp h
+    obtain ⟨y, hy, h⟩ := Res.bind_eq_ok.mp h
+    cases h; rfl
+  · exact short h
+  · exact short h
+
+theorem gtShort_ty {a b r : Value} (h : gtShort a b = .ok r) : r.ty = .bool := by
+  unfold gtShort at h
+  repeat' (first | split at h | (obtain ⟨_, _, h⟩ := Res.bind_eq_ok.mp h))
+  all_goals (cases h; rfl)
+
+theorem greaterThanU_ty {a b r : Value} (h : greaterThanU a b = .ok r) : r.ty = .bool := by
+  rw [greaterThanU_eq] at h
+  obtain ⟨tc, htc, h⟩ := Res.bind_eq_ok.mp h
+  rcases tc_cases tc with rfl | rfl | rfl <;> simp only at h
+  · obtain ⟨x, hx, h⟩ := Res.bind_eq_ok.mp h
+    obtain ⟨y, hy, h⟩ := Res.bind_eq_ok.mp h
+    cases h; rfl
+  · exact gtShort_ty h
+  · exact gtShort_ty h
+
+theorem ty_accVal (acc : EqAcc) : (accVal acc).ty = .bool := by cases acc <;> rfl
+
+theorem equalsFuel_ty {fuel : Nat} {ta tb : Ty} {a b : Payload} {r : Value}
+    (h : equalsFuel fuel ta a tb b = .ok r) : r.ty = .bool := by
+  cases fuel with
+  | zero => cases h
+  | succ n =>
+    unfold equalsFuel at h
+    split at h
+    · rename_i r' hp
+      cases h
+      rcases equalsPre_shape hp with ⟨x, rfl⟩ | rfl <;> rfl
+    · cases h
+    · cases h
+    · cases h
+    · simp only at h
+      repeat' split at h
+      all_goals first
+        | (cases h; done)
+        | (cases h; rfl)
+        | (obtain ⟨acc, _, rfl⟩ := res_map_ok h; exact ty_accVal _)
+
+theorem lessThan_ty {a b r : Value} (h : Value.lessThan a b = .ok r) : r.ty = .bool :=
+  binMarks_lift _ ty_withMarks (fun _ => lessThanU_ty) h
+theorem greaterThan_ty {a b r : Value} (h : Value.greaterThan a b = .ok r) : r.ty = .bool :=
+  binMarks_lift _ ty_withMarks (fun _ => greaterThanU_ty) h
+theorem equals_ty {a b r : Value} (h : Value.equals a b = .ok r) : r.ty = .bool := by
+  unfold Value.equals at h
+  split at h
+  · obtain ⟨r0, h0, rfl⟩ := res_map_ok h
+    exact ty_withMarks _ _ (equalsFuel_ty h0)
+  · exact equalsFuel_ty h
+
+theorem bool_ne_dyn {r : Value} (h : r.ty = .bool) : r.ty ≠ .dyn := by
+  rw [h]; intro h'; cases h'
+
+theorem notEqual_known_partial (a b r : Value) (ha : a.whollyKnown = true) (hb : b.whollyKnown = true)
+    (_hta : a.ty ≠ .dyn) (_htb : b.ty ≠ .dyn) (h : Value.notEqual a b = .ok r) : r.whollyKnown = true := by
+  unfold Value.notEqual at h
+  obtain ⟨e, he, h⟩ := Res.bind_eq_ok.mp h
+  exact not_known_partial e r (equals_knownInKnownOut a b e ha hb he) (bool_ne_dyn (equals_ty he)) h
+
+theorem notEqual_knownInKnownOut : KnownInKnownOut₂ Value.notEqual := by
+  intro a b r ha hb h
+  unfold Value.notEqual at h
+  obtain ⟨e, he, h⟩ := Res.bind_eq_ok.mp h
+  exact not_known_partial e r (equals_knownInKnownOut a b e ha hb he) (bool_ne_dyn (equals_ty he)) h
+
+theorem lessThanOrEqualTo_known_partial (a b r : Value) (ha : a.whollyKnown = true) (hb : b.whollyKnown = true)
+    (hta : a.ty ≠ .dyn) (htb : b.ty ≠ .dyn) (h : Value.lessThanOrEqualTo a b = .ok r) : r.whollyKnown = true := by
+  unfold Value.lessThanOrEqualTo at h
+  obtain ⟨l, hl, h⟩ := Res.bind_eq_ok.mp h
+  obtain ⟨e, he, h⟩ := Res.bind_eq_ok.mp h
+  exact or_known_partial l e r (lessThan_known_partial a b l ha hb hta htb hl) (equals_knownInKnownOut a b e ha hb he)
+    (bool_ne_dyn (lessThan_ty hl)) (bool_ne_dyn (equals_ty he)) h
+
+theorem greaterThanOrEqualTo_known_partial (a b r : Value) (ha : a.whollyKnown = true) (hb : b.whollyKnown = true)
+    (hta : a.ty ≠ .dyn) (htb : b.ty ≠ .dyn) (h : Value.greaterThanOrEqualTo a b = .ok r) : r.whollyKnown = true := by
+  unfold Value.greaterThanOrEqualTo at h
+  obtain ⟨g, hg, h⟩ := Res.bind_eq_ok.mp h
+  obtain ⟨e, he, h⟩ := Res.bind_eq_ok.mp h
+  exact or_known_partial g e r (greaterThan_known_partial a b g ha hb hta htb hg) (equals_knownInKnownOut a b e ha hb he)
+    (bool_ne_dyn (greaterThan_ty hg)) (bool_ne_dyn (equals_ty he)) h
 
 end CtyModel
